@@ -304,9 +304,10 @@ impl Factors {
                     factors,
                     "Recursos ahorrados a la red por la energía producida in situ y exportada a usos no EPB",
                 );
-            } else {
-                return Err(EpbdError::MissingFactor(format!("{}, SUMINISTRO, A", c)));
             }
+            // Si el vector no está definido en los factores de paso (p.e. factores simplificados de un
+            // edificio sin electricidad) no hay nada que completar. La falta de factores de red de los
+            // vectores definidos ya se ha comprobado antes.
         }
 
         // Asegura que existe RED1 | RED2, RED, SUMINISTRO, A, ren, nren
